@@ -1,6 +1,6 @@
 """dev helper: run one job in-process (no pool):  python dev1.py C01 quick 'H3-coeffs[d=2'"""
 import sys, importlib, json
-sys.path.insert(0, '/verif'); sys.path.insert(0, '/repo')
+import os; sys.path.insert(0, '/verif'); sys.path.insert(0, os.environ.get('VERIF_REPO', '/repo'))
 from lift import run
 run.prepare_process()
 mod = importlib.import_module('harness.' + sys.argv[1].lower())
